@@ -38,7 +38,7 @@ def nontrivial(impl):
 
 CHECK = ScenarioCheck(
     "C05", ["SimVerif.Props.C05"], "kernel", gen.generate, spec_c05, nontrivial,
-    "real TCP transfers over random routes (access + network queues with bw 0..100 MB/s, latency 0..100 ms, capacity 0/1600/3100/20 kB/200 kB, NAT hops, MTU 1..3000): families tcp / tcp_heavy (write sizes 1..20000 in 1..3 buffers, read capacities 1..65536 in 1..4 buffers, wait_read + non-blocking reads, late accept, close/destroy at arbitrary times), drop (scripted dropper on the writer's outgoing route: every subset of the first 8 droppable data segments [thorough: all 256 x 2 directions x 2 MSS; quick: 128 sampled], random subsets of the first 14 beyond), smallread (read capacity 1..7 over 1..4 buffers, MSS 1..1475), reuse (accepted socket / client object / both closed or re-attached without close and reused with unread, in-flight or to-be-retransmitted data of the first connection), both (both sides writing); non-trivial = at least one write completed with n>0 and at least two reads returned data; distinct = distinct implementation trace",
+    "real TCP transfers over random routes (access + network queues with bw 0..100 MB/s, latency 0..100 ms, capacity 0/1600/3100/20 kB/200 kB, NAT hops, MTU 1..3000): families tcp / tcp_heavy (write sizes 1..20000 in 1..3 buffers, read capacities 1..65536 in 1..4 buffers, wait_read + non-blocking reads inside the wait's handler, non-blocking reads from timer handlers at arbitrary instants (no wait outstanding / the chain's read or wait still pending / before establishment / after the end) in ~15 % of the reader chains of every family, late accept, close/destroy at arbitrary times), drop (scripted dropper on the writer's outgoing route: every subset of the first 8 droppable data segments [thorough: all 256 x 2 directions x 2 MSS; quick: 128 sampled], random subsets of the first 14 beyond), smallread (read capacity 1..7 over 1..4 buffers, MSS 1..1475), reuse (accepted socket / client object / both closed or re-attached without close and reused with unread, in-flight or to-be-retransmitted data of the first connection), both (both sides writing); non-trivial = at least one write completed with n>0 and at least two reads returned data; distinct = distinct implementation trace",
     TRUSTED, ASSUME, spec_scn=True)
 CHECK.extra_cov = lambda results: dict(monitor_stats=dict(STATS))
 
